@@ -172,7 +172,11 @@ func runF(op string, in M) (M, M) {
 		p := vCatch(func() { RegisterWordList(lang, func() wordlist.List { return &customList{ws} }) })
 		return M{"panic": p}, M{}
 	case "bip39.par":
-		return parChild(in), M{}
+		out := parChild(in)
+		for try := 0; try < 4 && out["panic"] == ""; try++ { // each child is a fresh process: a fresh chance to collide
+			out = parChild(in)
+		}
+		return out, M{}
 	case "bip39.EntropyToMnemonic":
 		ent := vBuf("EntropyToMnemonic entropy", in["entropy"]) // the caller's buffer, reused by later calls
 		keep := append([]byte{}, ent...)
@@ -427,9 +431,9 @@ func TestVerifParChild(t *testing.T) {
 	if err := SetWordList(lang); err != nil {
 		panic(err)
 	}
-	const K = 8
+	const K = 16
 	ents, sents, seeds := make([][]byte, K), make([]Mnemonic, K), make([][]byte, K)
-	passes := []string{"", "TREZOR", "a", "bb", "\u00e9", "pass phrase", "0123456789", "zz"}
+	passes := []string{"", "TREZOR", "a", "bb", "\u00e9", "pass phrase", "0123456789", "zz", "1", "22", "333", "4444", "55555", "x y", "\u212b", "end"}
 	for k := range ents {
 		ents[k] = make([]byte, []int{16, 24, 32}[k%3])
 		r.Read(ents[k])
